@@ -62,16 +62,15 @@ theorem inv_cancel_core (s : State) (h : Nat) (hd : Handle) (m m' : Entry) (hi :
     Inv (if m'.refs.length = 0 then
           if m'.holder.isSome = true then (s.wedge, Out.panic Site.cancelTry)
           else if m'.value.isNone = true then
-            ((((s.setEnt hd.key m').dropHandle h).touch hd.key).removeKey hd.key, Out.unit)
-          else (((s.setEnt hd.key m').dropHandle h).touch hd.key, Out.unit)
-        else (((s.setEnt hd.key m').dropHandle h).touch hd.key, Out.unit)).1 := by
+            (((s.setEnt hd.key m').dropHandle h).removeKey hd.key, Out.unit)
+          else ((s.setEnt hd.key m').dropHandle h, Out.unit)
+        else ((s.setEnt hd.key m').dropHandle h, Out.unit)).1 := by
   obtain ⟨e1, e2, e3, hcase⟩ := hc
   have hr : h ∈ m.refs := (hi.refs _ m hm1 h).2 (by simp [hhd])
   have hnd := hi.refsNodup _ m hm1
   have hqnd := hi.queueNodup _ m hm1
   have ⟨hq1, hq2, hq3, hq4, hq5⟩ := queue_facts m.queue hqnd
   have hre : ∀ x, x ∈ m.refs.erase h ↔ x ≠ h ∧ x ∈ m.refs := fun x => List.Nodup.mem_erase_iff hnd
-  have hko : hd.key ∈ s.order := (hi.keys _).2 (by simp [hm1])
   have hnqh : m.holder = some h → h ∉ m.queue := fun hh hx => ((hi.queue _ m hm1 h).1 hx).2.2 hh
   have keep : (m.value ≠ none ∨ m.refs.erase h ≠ []) → Inv ((s.setEnt hd.key m').dropHandle h) := by
     intro hok
@@ -109,15 +108,14 @@ theorem inv_cancel_core (s : State) (h : Nat) (hd : Handle) (m m' : Entry) (hi :
     split
     · rename_i hsome; simp [hfree] at hsome
     · split
-      · rw [touch_removeKey _ _ (by exact hi.nodup)]
-        exact inv_cancel_remove s h hd m m' hi hhd hm1 honly
+      · exact inv_cancel_remove s h hd m m' hi hhd hm1 honly
       · rename_i hval
         have hval' : m.value ≠ none := by rw [← e3]; simpa using hval
-        exact inv_touch ((s.setEnt hd.key m').dropHandle h) hd.key hko (keep (Or.inl hval'))
+        exact keep (Or.inl hval')
   · rename_i hlen
     have hr0' : m.refs.erase h ≠ [] := by
       intro e; rw [← e1] at e; simp [e] at hlen
-    exact inv_touch ((s.setEnt hd.key m').dropHandle h) hd.key hko (keep (Or.inr hr0'))
+    exact keep (Or.inr hr0')
 
 theorem inv_cancel (s : State) (h : Nat) (hi : Inv s) : Inv (cancel s h).1 := by
   unfold cancel
